@@ -949,6 +949,45 @@ where
     }
 }
 
+/// Read-only views of the builder state for the external verification harness.
+///
+/// Compiled only with the `verif-hooks` feature; nothing here changes builder behaviour.
+#[cfg(feature = "verif-hooks")]
+impl<F: Field> CircuitBuilder<F> {
+    /// The expression graph built so far.
+    pub const fn verif_graph(&self) -> &crate::expr::ExpressionGraph<F> {
+        self.expr_builder.graph()
+    }
+
+    /// The `connect` pairs recorded so far.
+    pub fn verif_pending_connects(&self) -> &[(ExprId, ExprId)] {
+        self.expr_builder.pending_connects()
+    }
+
+    /// `(op id, op type, input expressions, output expressions)` of every non-primitive call.
+    #[allow(clippy::type_complexity)]
+    pub fn verif_npo_calls(
+        &self,
+    ) -> Vec<(
+        NonPrimitiveOpId,
+        NpoTypeId,
+        Vec<Vec<ExprId>>,
+        Vec<Vec<ExprId>>,
+    )> {
+        self.non_primitive_ops
+            .iter()
+            .map(|d| {
+                (
+                    d.op_id,
+                    d.op_type.clone(),
+                    d.input_exprs.clone(),
+                    d.output_exprs.clone(),
+                )
+            })
+            .collect()
+    }
+}
+
 impl<F> CircuitBuilder<F>
 where
     F: Field + Clone + PartialEq + Eq + Hash,
